@@ -400,7 +400,7 @@ func TypeListFunction(env *Zlisp, name string, args []Sexp) (Sexp, error) {
 func (env *Zlisp) ImportBaseTypes() {
 	// define the names in sorted order, so that the symbol numbers
 	// they get do not depend on Go's random map iteration order.
-	for _, m := range []map[string]*RegisteredType{GoStructRegistry.Builtin, GoStructRegistry.Userdef} {
+	for i, m := range []map[string]*RegisteredType{GoStructRegistry.Builtin, GoStructRegistry.Userdef} {
 		keys := make([]string, 0, len(m))
 		for k := range m {
 			keys = append(keys, k)
@@ -408,6 +408,18 @@ func (env *Zlisp) ImportBaseTypes() {
 		sort.Strings(keys)
 		for _, k := range keys {
 			e := m[k]
+			if i == 1 {
+				// MakeHash registers the type name of every hash it
+				// builds ("field", "hash", ...) in the process-wide
+				// registry. Such an entry, left behind by an earlier
+				// interpreter, must not replace the builtin function
+				// of the same name in this one.
+				if num, found := env.symtable[e.RegisteredName]; found {
+					if _, isBuiltin := env.builtins[num]; isBuiltin {
+						continue
+					}
+				}
+			}
 			env.AddGlobal(e.RegisteredName, e)
 		}
 	}
